@@ -1,17 +1,17 @@
 import Spok.Props.C06
 import Spok.Lemmas.RT.Corollaries
+import Spok.Lemmas.ParseTreeOK
+import Spok.Lemmas.WfSelfDec
 /-! # Property C07 — formatting never changes what a spokfile does, and its output always parses
 
-For every tree `t` satisfying `wfTree` (`Syntax/WF.lean`: the executable description of the trees the
-parser can return) the formatter's text parses without error to the normalised tree `norm t`, which
-differs from `t` only in the spelling of comments and docstrings; in particular it defines the same
-variables with the same values and the same tasks with the same dependencies, outputs and commands,
-in the same order (`sem`).
-
-What is still OPEN is `parse_wf`: *every tree the parser returns satisfies `wfTree`*.  Until it is
-proved the theorems below carry `wfTree t = true` as a hypothesis (hence `…_partial`), and the oracle
-evaluates `wfTree` — and re-checks `parse (format t) = norm t` — on every tree the implementation
-produces in every run (verdicts `WF`, `NORM`). -/
+For EVERY byte string that parses, the text the formatter produces for its tree
+* decodes to exactly the runes the formatter wrote (`format_selfDec`: the formatter only ever puts ASCII
+  literals after the token texts it copies, and every such text is a slice of the input that ended in
+  front of an ASCII rune or the end of input),
+* is an admissible layout of the normalised tree (`renders_format`, using `parse_wf`: every tree the
+  parser returns satisfies `wfTree`), hence parses without error to `norm t` (C06),
+* and `norm t` differs from `t` only in the spelling of comments and docstrings: same variables with the
+  same values, same tasks with the same dependencies, outputs and command lines, in the same order. -/
 namespace Spok.Props.C07
 open Spok
 
@@ -19,31 +19,43 @@ open Spok
 theorem print_parse (t : Tree) (h : wfTree t = true) : parseRunes (format t) = ⟨norm t, none⟩ :=
   Spok.print_parse C06.C06 h
 
+/-- every tree the parser returns is well formed (`Lemmas/ParseTreeOK.lean`) -/
+theorem parse_wf (rs : List Rune) (h : (parseRunes rs).fail = none) : wfTree (parseRunes rs).tree = true :=
+  Spok.parse_wf' rs h
+
 /-- normalisation only re-spells comments: variables, values, tasks, dependencies, outputs and
     command lines are untouched, for every tree -/
 theorem sem_preserved (t : Tree) : sem (norm t) = sem t := sem_norm t
 
-/-- **C07** for every well-formed tree: the formatted text parses, and means the same.
-    Missing for the full property: `parse_wf` (see the header). -/
-theorem C07_partial (t : Tree) (h : wfTree t = true) :
-    (parseRunes (format t)).fail = none ∧ sem (parseRunes (format t)).tree = sem t := by
-  rw [print_parse t h]; exact ⟨rfl, sem_norm t⟩
+/-- the formatter's bytes, read back, are the formatter's runes -/
+theorem format_bytes (bytes : List UInt8) (h : (parse bytes).fail = none) :
+    parse (flat (format (parse bytes).tree)) = parseRunes (format (parse bytes).tree) := by
+  show parseRunes (decodeAll (flat (format (parse bytes).tree))) = _
+  rw [format_selfDec bytes h]
 
-/-- the same starting from an input: if it parses to a well-formed tree, the formatted text parses to a
-    tree with the same meaning -/
-theorem C07_from_input_partial (rs : List Rune) (hp : (parseRunes rs).fail = none)
-    (hw : wfTree (parseRunes rs).tree = true) :
+/-- **C07** (rune level): for every input that parses, the formatted text parses and means the same. -/
+theorem C07_runes (rs : List Rune) (hp : (parseRunes rs).fail = none) :
     (parseRunes (format (parseRunes rs).tree)).fail = none ∧
-    sem (parseRunes (format (parseRunes rs).tree)).tree = sem (parseRunes rs).tree :=
-  C07_partial _ hw
+    sem (parseRunes (format (parseRunes rs).tree)).tree = sem (parseRunes rs).tree := by
+  rw [print_parse _ (parse_wf rs hp)]; exact ⟨rfl, sem_norm _⟩
 
-/-- the judge accepts the model on well-formed trees -/
-theorem judge_accepts_model_partial (t : Tree) (h : wfTree t = true) :
-    Judge.c07 t (.ok (parseRunes (format t)).tree) = true := by
-  rw [print_parse t h]; simp [Judge.c07, sem_norm]
+/-- **C07** (byte level, full strength): for every byte string that parses, the bytes the formatter writes
+    parse without error to a tree defining the same variables and tasks. -/
+theorem C07 (bytes : List UInt8) (hp : (parse bytes).fail = none) :
+    (parse (flat (format (parse bytes).tree))).fail = none ∧
+    sem (parse (flat (format (parse bytes).tree))).tree = sem (parse bytes).tree := by
+  rw [format_bytes bytes hp]
+  exact C07_runes (decodeAll bytes) hp
+
+/-- the judge accepts the model -/
+theorem judge_accepts_model (bytes : List UInt8) (hp : (parse bytes).fail = none) :
+    Judge.c07 (parse bytes).tree (.ok (parse (flat (format (parse bytes).tree))).tree) = true := by
+  have := (C07 bytes hp).2
+  simp [Judge.c07, this]
 
 /-! non-vacuity -/
 example : wfTree Fmt.exTree = true := Fmt.exTree_wf
-example : sem (parseRunes (format Fmt.exTree)).tree = sem Fmt.exTree := (C07_partial _ Fmt.exTree_wf).2
+example : sem (parseRunes (format Fmt.exTree)).tree = sem Fmt.exTree := by
+  rw [print_parse _ Fmt.exTree_wf]; exact sem_norm _
 
 end Spok.Props.C07
